@@ -60,6 +60,8 @@ WINDOWS = [     # (ns, ew, vt signal names, L, dt, scale) - the windows of C01
 INVARIANT = ["squared_average", "quadratic_mean", "root_mean_square", "effective_amplitude_spectrum",
              "total_horizontal_energy", "vector_summation", "diffuse_field"]
 CONTROL = ["geometric_mean"]        # not rotation invariant: must change (non-vacuity of the invariance oracle)
+# thorough: full product for one name per formula (and the control), 2 deviations for the alias names
+FULL_PRODUCT_METHODS = ["squared_average", "total_horizontal_energy", "diffuse_field", "geometric_mean"]
 
 FFT_REQ = {"nopad": lambda: {"n": None}, "default": lambda: None,
            "n128": lambda: {"n": 128}, "n65536": lambda: {"n": 65536}}
@@ -166,6 +168,10 @@ def _orient(ctx, rec, t):
     return None
 
 
+def _is_default(space, cfg, dims=None):
+    return all(cfg[k] == space[k][0] for k in (dims or space))
+
+
 def _angle_class(r):
     r = math.fmod(r, 360.0)
     if r < 0:
@@ -206,7 +212,7 @@ def roots(tier, seed):
     for wi in wins:
         for m in INVARIANT + CONTROL:
             out.append(dict(part="invariant", wi=wi, method=m))
-    for ti in range(len(ROT_TRIPLES) if thorough else 2):
+    for ti in range(2):
         for d in ANGLES:
             out.append(dict(part="preprocess", triple=ti, d=d))
     return out
@@ -253,7 +259,7 @@ def _part_orient(root, ctx, tier):
                 ctx.outcome(("orient", cls, (t - d) % 360, root["triple"], L))
                 if cls == "oblique":
                     ctx.nontrivial_case(("orient", root["triple"], L, scale, d, t, t2))
-                if len(ctx.samples) < 2 and cls == "oblique":
+                if (root["triple"], L, scale, d, t, t2) == (0, 8, 1.0, 30, 200, -45):
                     ctx.sample(dict(root=root, case=case, ns_after=ns1[:3].tolist(), ns_reference=rns[:3].tolist()))
                 if not (same(ns1, rns) and same(ew1, rew)):
                     ctx.violation(f"C04:orient_sensor_to:horizontals:{cls}:reference-rotation", root, detail=case,
@@ -359,6 +365,9 @@ def _part_polarised(root, ctx, tier):
                 ctx.outcome(("polarised", (theta - t) % 360, cls))
                 if cls == "oblique" and _angle_class(theta - t) == "oblique":
                     ctx.nontrivial_case(("polarised", root["motion"], L, scale, theta, d, t))
+                if (root["motion"], L, scale, theta, d, t) == (0, 8, 1.0, 30, 200, 0):
+                    ctx.sample(dict(root=root, case=case, recorded_ns=ns_s[:3].tolist(), recorded_ew=ew_s[:3].tolist(),
+                                    ns_after_orienting_north=ns1[:3].tolist(), true_north=north[:3].tolist()))
                 if RR.same_direction(t, 0):
                     if not (close(ns1, north, rtol=RTOL, atol=atol) and close(ew1, east, rtol=RTOL, atol=atol)):
                         ctx.violation(f"C04:polarised:orient-to-north:{cls}:true-components", root, detail=case,
@@ -443,7 +452,7 @@ def _part_single(root, ctx, tier):
             turned_ns = [r.ns.amplitude.copy() for r in turned]
             r_0 = run_process(ctx, turned, make_settings(dict(kind="single", azimuth=0), cfg, fcs))
             ctx.count("validated")
-            if len(ctx.samples) < 4 and cls == "oblique" and d:
+            if (root["wi"], d, a) == (1, 30, 30) and _is_default(space, cfg):
                 ctx.sample(dict(root=root, case=detail, hvsr_at_azimuth=r_a[1][0].tolist(),
                                 hvsr_north_after_turning=_obs(r_0)[0] if r_0[0] == "ok" else _obs(r_0)))
             if r_0[0] != "ok" or not close(r_0[1], r_a[1], rtol=RTOL):
@@ -513,7 +522,7 @@ def _part_azimuthal(root, ctx, tier):
         ctx.nontrivial_case(("azimuthal", root["wi"], root["azset"], d, repr(cfg)))
         ctx.outcome(("azimuthal", root["wi"], root["azset"], cfg["smoothing"][0], cfg["fft"], int(n),
                      round(float(stack.flat[-1]), 6)))
-        if len(ctx.samples) < 5 and root["azset"] == "four":
+        if (root["wi"], root["azset"], d) == (0, "two", 200) and _is_default(space, cfg):
             ctx.sample(dict(root=root, case=detail, fft_n=int(n), azimuthal_first_row=r_az[1][0].tolist(),
                             single_first_row=stack[0].tolist()))
         ex = r_az[3]
@@ -579,7 +588,7 @@ def _part_rotdpp(root, ctx, tier):
             ctx.count("rotdpp_strictly_increasing")
         if np.any(curves[25] > curves[0] * (1 + 1e-6)) and np.any(curves[100] > curves[50] * (1 + 1e-6)):
             ctx.count("rotdpp_interior_percentiles_distinct")
-        if len(ctx.samples) < 6 and root["azset"] == "four" and nwin == 1:
+        if (root["wi"], root["azset"], nwin) == (0, "four", 1) and _is_default(space, cfg):
             ctx.sample(dict(root=root, case=detail, single_min=lo[0].tolist(), single_max=hi[0].tolist(),
                             rotd={str(p): curves[p][0].tolist() for p in PERCENTILES}))
         obs = {str(p): curves[p].tolist() for p in PERCENTILES}
@@ -620,7 +629,8 @@ def _part_invariant(root, ctx, tier):
     space, fcs_sets = cfg_space(L, dt, ["nopad", "default"])
     space = dict(space, deployed=list(ANGLES), target=list(ANGLES))
     bases = {}
-    for case in product.deviations(space, 2 if tier == "quick" else None):
+    full = tier != "quick" and method in FULL_PRODUCT_METHODS
+    for case in product.deviations(space, None if full else 2):
         cfg = {k: case[k] for k in ("fft", "smoothing", "tukey", "fcs")}
         d, t = case["deployed"], case["target"]
         fcs = fcs_sets[cfg["fcs"]]
@@ -659,6 +669,9 @@ def _part_invariant(root, ctx, tier):
                 ctx.nontrivial_case(("invariant", root["wi"], method, repr(case), vname))
             ctx.outcome(("invariant", root["wi"], method, cfg["smoothing"][0], cfg["fft"], cfg["tukey"], cfg["fcs"],
                          round(float(base[1].flat[0]), 6)))
+            if (root["wi"], method, d, t, vname) == (1, "squared_average", 30, 200, "reoriented") \
+                    and _is_default(space, case, ("fft", "smoothing", "tukey", "fcs")):
+                ctx.sample(dict(root=root, case=detail, unrotated=base[1][0].tolist(), reoriented=_obs(res)[0]))
             if not same:
                 ctx.violation(f"C04:invariant:{method}:{vname}:{cls}", root, detail=detail, expected=base[1].tolist(),
                               observed=_obs(res),
@@ -809,13 +822,15 @@ def describe(tier):
              f"{2 if quick else 4} signal triples x L {{8, 33}} x {2 if quick else 3} amplitude scales; polarised: "
              "true azimuth x deployed x target (north first) on "
              f"{2 if quick else 4} motions x L x scales; single: {dev} of {{2 FFT requests, 3 operators, 3 Tukey "
-             "widths, 2 centre sets}} x 7 azimuths x "
+             "widths, 2 centre sets} x 7 azimuths x "
              f"{4 if quick else 8} deployed orientations x {4 if quick else 6} windows; azimuthal: {dev} of {{4 FFT "
-             "requests, 3 operators, 3 tapers, 2 centre sets}} x 3 azimuth sets; rotdpp: the same configurations x "
+             "requests, 3 operators, 3 tapers, 2 centre sets} x 3 azimuth sets; rotdpp: the same configurations x "
              "3 azimuth sets x percentiles {0, 25, 50, 100} x {1, 2} windows; invariant: "
-             f"{dev} of {{configuration, deployed, target}} x 7 invariant method names (+ geometric mean as control); "
+             f"{dev} of {{configuration, deployed, target}} x 7 invariant method names (+ geometric mean as control"
+             + ("" if quick else "; the four alias names within 2 deviations only") + "), re-oriented by hvsrpy (all "
+             "records alike, and each record differently) and deployed by the reference geometry; "
              f"preprocess: {dev} of {{target, hvsr/psd, window length, detrend, filter corners, 1-2 recordings}} x 8 "
-             "deployed orientations.  A case is non-trivial when the rotation involved is not a multiple of 90 degrees "
+             "deployed orientations x 2 signal triples.  A case is non-trivial when the rotation involved is not a multiple of 90 degrees "
              "(orient/polarised/single/invariant/preprocess) resp. per distinct (window, azimuth set, configuration) "
              "(azimuthal/rotdpp)",
         bounds=dict(angles=ANGLES, azimuths=AZIMUTHS, azimuth_sets=AZ_SETS, percentiles=PERCENTILES,
